@@ -32,7 +32,7 @@ PROPS = {
             "what": "queued lazy actions run exactly once, in queue order, after merge and purge, and act only on their live target"},
     "C12": {"mon": ["C12"], "proj": ["events", "emit"], "kind": "store", "focus": ["tracked", "tracked", "tracked", "many"], "sexh": [6, 7, 8, 9, 10, 11],
             "what": "tracked storages emit exactly the insert/modify/remove events of each operation, in order"},
-    "C19": {"mon": ["C19", "C08"], "proj": ["dump", "ins", "entry_or", "del_now", "del_batch", "del_all", "maintain", "clear", "drop_world", "get", "mask", "createw", "lazy_probe"],
+    "C19": {"mon": ["C19", "C08"], "proj": ["dump", "ins", "entry_or", "del_now", "del_batch", "del_all", "maintain", "clear", "drop_world", "get", "mask", "createw", "lazy_probe", "events"],
             "ledger": True, "kind": "store", "focus": ["fault", "fault", "fault", "faultchurn", "faultchurn", "lazy"], "sexh": [],
             "what": "after a caught destructor panic no value is destroyed twice, no destroyed value is visible, and the world keeps conforming to the storage specification"},
     "C13": {"mon": ["C13"], "proj": ["rjoin", "events"], "kind": "store", "focus": ["rjoin", "rjoin", "rjoin", "tracked", "many"], "sexh": [1, 7, 10],
